@@ -89,7 +89,7 @@ def World.copy (w : World) (s d : Nat) : World :=
 
 /-- the state a vector is left in by move construction / stealing -/
 def Vec.movedFrom (v : Vec) : Vec :=
-  { v with blk := none, units := 0, tbl := none, mem := [], loc := { v.loc with size := 0, count := 0 } }
+  { v with blk := none, units := 0, tbl := none, cap := 0, mem := [], loc := { v.loc with size := 0, count := 0, last := 0 } }
 
 /-- move construction: `d` is constructed from `s` -/
 def World.move (w : World) (s d : Nat) : World :=
